@@ -218,13 +218,51 @@ CLAIMED['C03'] = dict(
          "each comment word must appear exactly once.",
     design='§5 C03')
 
+GATE_TECH = "bounded symbolic execution of the crate's MIR (mirsym, under-constrained objects, parsing / resolution / per-file formatting as symbolic environment); path-trace obligations decided by cvc5/z3; CLI replay"
+
+CLAIMED['C05'] = dict(
+    category='other',
+    text="Thin kernel of C05: the order of events in formatting.rs::format_project, decided on its real MIR (with should_skip_module and the closures between "
+         "them) for a path input and for standard input and 0..2 (thorough 3) modules returned by the resolver, with ParseSess::new, Parser::parse_crate, "
+         "ModResolver::visit_crate and FormatContext::format_file as symbolic Ok/Err environment: no file is handed to format_file unless session, parse "
+         "and resolution all succeeded before; a parse error is recorded in the report and ends the run with nothing formatted; a resolution error or a "
+         "format_file error is returned as Err (never swallowed); every format_file call pairs a path with its own module. Which inputs fail to parse or "
+         "resolve, config/version errors raised earlier, and what format_file writes (C06) are outside.",
+    note="Level other, stated as thin: it decides the gate, not the parser. Trusted: MIR printer, mirsym under-constrained mode, the environment contract above. "
+         "Replay: the real binary on module trees with a syntax error / a missing module / a failing root next to a good one, file hashes and exit status, and an "
+         "open-for-writing failure injected with strace.",
+    design='§5 C04, C05, C13', technique=GATE_TECH)
+
+CLAIMED['C13'] = dict(
+    category='other',
+    text="Thin kernel of C13: which of the files the module resolver returns are formatted, decided on the real MIR of format_project + should_skip_module: for a "
+         "path input exactly the modules without skip attribute, not excluded by skip_children (non-root), not matched by `ignore`, and not generated when "
+         "format_generated_files is off - each once, in the resolver's order, each path with its own module; for standard input every returned module (the "
+         "skip attribute echoes the input instead); the resolver is told to recurse exactly for a path input without skip_children; skip_children with an "
+         "ignored main file formats nothing. Which files the resolver reaches (mod declarations, #[path], cfg_if!, directory ownership) is outside.",
+    note="Level other, stated as thin. Trusted: MIR printer, mirsym, contains_skip / ignore_file / is_generated_file as symbolic predicates per module, the "
+         "resolver's result as a harness list with module 0 = the root. Replay: the real binary on a module tree (nested module, unrelated file, generated "
+         "file, inner skip attribute, ignore list, skip_children, standard input), comparing which files were rewritten.",
+    design='§5 C04, C05, C13', technique=GATE_TECH)
+
+CLAIMED['C04'] = dict(
+    category='other',
+    text="Thin kernels of C04: (1) utils.rs::{is_skip, is_skip_nested, contains_skip} on their real MIR with rustc_ast's MetaItem as an under-constrained "
+         "object: a word attribute is a skip attribute iff its printed path is `rustfmt::skip` or `rustfmt_skip`, a list attribute iff it is cfg_attr with "
+         "exactly two entries whose second is a skip item, nothing else; a list of attributes contains a skip iff one of its parsable attributes is one. "
+         "(2) format_project never hands a module carrying the skip attribute to format_file (path input) and echoes standard input back instead. "
+         "(3) Session::format_input_inner reaches format_project only when disable_all_formatting is off (standard input is echoed, a path yields an empty "
+         "report). The visitors and rewriters that copy the span of a skipped item / statement / expression / field / arm, skip::macros and "
+         "skip::attributes are AST code and outside.",
+    note="Level other, stated as thin. Trusted: MIR printer, mirsym under-constrained objects for rustc_ast types (unconstrained discriminants, lazily "
+         "materialised payloads), pprust::path_to_string / has_name / ThinVec::len as symbolic environment. Replay: the real binary on items under each "
+         "spelling of the attribute (and near misses), files with an inner skip attribute, disable_all_formatting for a path, standard input and --check.",
+    design='§5 C04, C05, C13', technique=GATE_TECH)
+
 NA = {
     'C01': "token-sequence equivalence over all programs requires symbolic execution of rustc_parse and ~30 kLoC of AST rewriters; no encodable kernel carries it",
     'C02': "fixed-point of the full formatting pipeline (parser + all rewriters on both sides); not encodable, and idempotence of kernels does not imply it",
-    'C04': "decided entirely inside AST visitors (rustc_ast attributes, span-indexed copying); no integer/text kernel carries the property",
-    'C05': "fault space is parser / module-resolver / file-system behaviour; treating them as uninterpreted leaves only the syntactic order of three calls",
     'C10': "recursive heap-allocated UseTree structures with std sort/hash/unique; beyond both engines at any bound that reaches the interesting shapes",
-    'C13': "module resolution is path / file-system / rustc_expand code; inputs are directory trees, nothing integer- or sequence-shaped carries it",
 }
 
 PENDING = "check under construction in this round (design in DESIGN.md §5); not claimed until its encoder is validated against the real code"
